@@ -373,7 +373,7 @@ func main() {
 
 	// DFS with cloning: nodes are plain values.
 	type job struct {
-		init initCfg
+		init  initCfg
 		first op
 	}
 	var jobs []job
